@@ -364,10 +364,80 @@ def install_rawconfigparser(I):
     for name, fn in (("__init__", b_init), ("has_section", b_has_section), ("sections", b_sections), ("defaults", b_defaults),
                      ("add_section", b_add_section), ("options", b_options), ("has_option", b_has_option), ("get", b_get),
                      ("set", b_set), ("remove_option", b_remove_option), ("remove_section", b_remove_section),
-                     ("read_file", b_read_file), ("__getitem__", b_getitem)):
+                     ("read_file", b_read_file), ("__getitem__", b_getitem), ("items", b_items)):
         I.ext_methods[(base, name)] = fn
 
 
 class TextFile(object):
     def __init__(self, text):
         self.text = text
+
+
+def b_items(I, inst, args, kwargs):
+    """RawConfigParser.items(section): own options merged with the defaults (library behaviour)"""
+    if not args:
+        raise AnalysisError("items() without a section is not modelled")
+    s = _s(args[0])
+    opts = b_options(I, inst, [Const(s)], {})
+    out = []
+    for k in opts.items:
+        out.append(ListV([k, b_get(I, inst, [Const(s), k], {})], "tuple"))
+    return ListV(out, "list")
+
+
+# ---------------------------------------------------------------------------
+# cexprtk model: a symbol table is two dictionaries; an expression evaluates to an opaque value that
+# records the expression text and the variable bindings at the moment of evaluation
+
+class Store(object):
+    def __init__(self, log, kind):
+        self.d = {}
+        self.log = log
+        self.kind = kind
+
+    def setitem(self, I, idx, val):
+        self.d[_s(idx)] = val
+        self.log.append((self.kind, _s(idx), val))
+
+    def getitem(self, I, idx):
+        return self.d[_s(idx)]
+
+    def contains(self, I, item):
+        return _s(item) in self.d
+
+
+class SymbolTable(object):
+    def __init__(self):
+        self.log = []
+        self.variables = Store(self.log, "var")
+        self.functions = Store(self.log, "func")
+
+    def get_variables(self, I):
+        return PyObjV(self.variables)
+
+    def get_functions(self, I):
+        return PyObjV(self.functions)
+
+
+class Expression(object):
+    def __init__(self, text, table):
+        self.text = text
+        self.table = table
+        self.evaluations = []
+
+    def m___call__(self, I, args, kwargs):
+        snap = tuple(sorted((k, v.key()) for k, v in self.table.variables.d.items()))
+        self.evaluations.append(dict(self.table.variables.d))
+        I.log_event(("eval", ("cexprtk", self.text)))
+        return Num(ep.app(("cexprtk", self.text, snap), []))
+
+
+def install_cexprtk(I):
+    def symtab(args, kwargs, node, env):
+        return PyObjV(SymbolTable())
+
+    def expression(args, kwargs, node, env):
+        return PyObjV(Expression(_s(args[0]) if isinstance(args[0], Const) else repr(args[0]), args[1].obj)).as_callable() \
+            if False else PyObjV(Expression(_s(args[0]) if isinstance(args[0], Const) else repr(args[0]), args[1].obj))
+    I.x_cexprtk_Symbol_Table = symtab
+    I.x_cexprtk_Expression = expression
